@@ -6,8 +6,8 @@
 #include "world.h"
 #include "peek.h"
 
-enum { D_NONE = 0, D_UNKNOWN_CA, D_EXPIRED, D_NOT_YET_VALID, D_NAME, D_FORGED_CERT, D_POP_WRONG_SIG, D_N };
-static const char *D_NAME_S[] = { "none", "unknown_ca", "expired", "not_yet_valid", "name_mismatch", "forged_cert_sig", "pop_wrong_signature" };
+enum { D_NONE = 0, D_UNKNOWN_CA, D_EXPIRED, D_NOT_YET_VALID, D_NAME, D_FORGED_CERT, D_POP_WRONG_SIG, D_POP_OTHER_DATA, D_N };
+static const char *D_NAME_S[] = { "none", "unknown_ca", "expired", "not_yet_valid", "name_mismatch", "forged_cert_sig", "pop_wrong_signature", "pop_signature_over_other_data" };
 static const char *CB_S[] = { "none", "strict", "allow_all", "allow_one" };
 
 struct KexChoice { int ver; uint16_t suite; int kind; bool has_sig_pop; };   // has_sig_pop: the server signs something (SKE / CertificateVerify)
@@ -21,6 +21,7 @@ static const KexChoice KEX[] = {
 };
 static const int NKEX = sizeof KEX / sizeof KEX[0];
 
+static inline bool is_pop(int d) { return d == D_POP_WRONG_SIG || d == D_POP_OTHER_DATA; }
 static Plan make_plan(int kex, int verifier_is_server, int defect, int cb, int cb_alert, uint64_t seed) {
     Plan p; p.seed = seed;
     p.cfg["kex"] = kex; p.cfg["vsrv"] = verifier_is_server; p.cfg["defect"] = defect; p.cfg["cb"] = cb; p.cfg["cb_alert"] = cb_alert;
@@ -35,7 +36,7 @@ static Plan c04_gen(uint64_t seed, int tier, uint64_t index) {
     int kex = (int) r.below(NKEX);
     int vsrv = r.chance(1, 3);
     int defect = (int) r.below(D_N);
-    if (defect == D_POP_WRONG_SIG && !vsrv && !KEX[kex].has_sig_pop) { defect = D_FORGED_CERT; }
+    if (is_pop(defect) && !vsrv && !KEX[kex].has_sig_pop) { defect = D_FORGED_CERT; }
     if (defect == D_NAME && vsrv) { defect = D_EXPIRED; }          // servers do not match client names
     int cb = (int) r.below(4);
     if (vsrv && cb == CB_NONE) { cb = CB_STRICT; }                 // a server without a callback does not request a client certificate at all
@@ -53,7 +54,7 @@ static std::vector<Plan> c04_fixed(int tier) {
         for (int vsrv = 0; vsrv < 2; vsrv++) {
             if (vsrv && !tier && (kex % 3) != 0) { continue; }     // quick: a third of the server-side grid
             for (int d = 0; d < D_N; d++) {
-                if (d == D_POP_WRONG_SIG && !vsrv && !KEX[kex].has_sig_pop) { continue; }
+                if (is_pop(d) && !vsrv && !KEX[kex].has_sig_pop) { continue; }
                 if (d == D_NAME && vsrv) { continue; }
                 for (int cb = 0; cb < 4; cb++) {
                     if (vsrv && cb == CB_NONE) { continue; }
@@ -113,12 +114,12 @@ static RunResult c04_exec(const Plan &p) {
             if (!res.harness_error && w.connect()) {
                 // allow_one on the server side uses the same alert parameter
                 if (vsrv) { w.srv->cfg.cb_allow_alert = (int) p.get("cb_alert"); }
-                if (defect == D_POP_WRONG_SIG) { vsim_sign_corrupt(vsrv ? NODE_CLIENT : NODE_SERVER, 8); }
+                if (is_pop(defect)) { vsim_sign_mode(defect == D_POP_OTHER_DATA ? 1 : 0); vsim_sign_corrupt(vsrv ? NODE_CLIENT : NODE_SERVER, 8); }
                 w.handshake();
                 MxEndpoint &ver = vsrv ? *w.srv : *w.cli;
                 bool completed = ver.is_complete();
                 uint64_t corrupted = vsim_sign_corrupted();
-                vsim_sign_corrupt(-1, 0);
+                vsim_sign_corrupt(-1, 0); vsim_sign_mode(0);
                 std::string ctx = std::string(ver_name(pc.version)) + "," + (vsrv ? "server" : "client") + "," + D_NAME_S[defect] + "," + CB_S[cb];
                 res.count(std::string("outcome.") + D_NAME_S[defect] + (completed ? ".completed" : ".refused"));
                 // was the failure explicitly accepted by the application?
@@ -127,9 +128,9 @@ static RunResult c04_exec(const Plan &p) {
                 bool cb_saw_failure = false; for (auto a : ver.cb_alerts) { if (a != 0) { cb_saw_failure = true; } }
                 if (defect == D_NONE) {
                     if (!completed) { res.harness_error = true; res.detail = "control failed: no defect but the handshake did not complete (" + ctx + ", suite " + suite_name(K.suite) + ") cli_err=" + std::to_string(w.cli->first_error) + " srv_err=" + std::to_string(w.srv->first_error); }
-                } else if (defect == D_POP_WRONG_SIG) {
+                } else if (is_pop(defect)) {
                     if (corrupted == 0) { res.count("fault_not_fired"); }
-                    else if (completed) { res.violate("completed_with_defect", ctx, "the peer's proof-of-possession signature was corrupted (" + std::to_string(corrupted) + " signature(s)) and the handshake still completed"); }
+                    else if (completed) { res.violate("completed_with_defect", ctx, std::string(defect == D_POP_OTHER_DATA ? "the peer's proof-of-possession signature was a genuine signature over OTHER data (" : "the peer's proof-of-possession signature was corrupted (") + std::to_string(corrupted) + " signature(s)) and the handshake still completed"); }
                 } else if (completed) {
                     bool overridden = cb != CB_NONE && cb_saw_failure && accepted_by_cb;
                     if (!overridden) {
@@ -137,8 +138,8 @@ static RunResult c04_exec(const Plan &p) {
                                     CB_S[cb] + ", callback calls " + std::to_string(ver.cb_calls) + ", last alert given " + std::to_string(ver.cb_last_alert) + ", returned " + std::to_string(ver.cb_last_ret) + ")");
                     }
                 }
-                if (defect != D_NONE && defect != D_POP_WRONG_SIG && cb != CB_NONE && !vsrv && !cb_saw_failure && ver.cb_calls > 0) { res.count("probe.callback_not_told_of_failure"); }
-                res.nontrivial = defect != D_NONE && !(defect == D_POP_WRONG_SIG && corrupted == 0);
+                if (defect != D_NONE && !is_pop(defect) && cb != CB_NONE && !vsrv && !cb_saw_failure && ver.cb_calls > 0) { res.count("probe.callback_not_told_of_failure"); }
+                res.nontrivial = defect != D_NONE && !(is_pop(defect) && corrupted == 0);
                 res.fingerprint = mix64(w.fingerprint(), (uint64_t) (defect * 64 + cb * 8 + vsrv));
                 res.states.push_back(ctx + "," + keykind_name(K.kind));
             } else if (!res.harness_error) { res.harness_error = true; res.detail = "connect failed"; }
